@@ -9,6 +9,7 @@ import (
 	tmproto "github.com/cometbft/cometbft/proto/tendermint/types"
 	ethtypes "github.com/ethereum/go-ethereum/core/types"
 	coinomicstypes "github.com/haqq-network/haqq/x/coinomics/types"
+	epochstypes "github.com/haqq-network/haqq/x/epochs/types"
 	"math/big"
 	"math/rand"
 	"os"
@@ -74,12 +75,14 @@ import (
 // Transactions:  send.k.j.amt  eth.k.amt  deploy.k  fundpup.k.amt  approve.k  pup.k.value.<script>
 // deleg.k.amt  mdeleg.k.amt  mundeleg.k.amt  dao.k.amt  wdr.k  govswap.out.in  vote.id  pc.k.name  badnonce.k
 const (
-	nodeChainID    = utils.TestEdge2ChainID + "-3"
-	nodeBlockTime  = 6 * time.Second
-	nodeVoting     = 12 * time.Second
-	nodeKeys       = 6
-	nodeCosmosGas  = uint64(2_000_000)
-	nodeBech32Addr = "0x0000000000000000000000000000000000000400"
+	nodeChainID   = utils.TestEdge2ChainID + "-3"
+	nodeBlockTime = 6 * time.Second
+	nodeVoting    = 12 * time.Second
+	// a second denomination every key holds from genesis (deposits and burns of more than one denomination)
+	nodeSecondDenom = "utest"
+	nodeKeys        = 6
+	nodeCosmosGas   = uint64(2_000_000)
+	nodeBech32Addr  = "0x0000000000000000000000000000000000000400"
 )
 
 type nodeWorld struct {
@@ -188,7 +191,7 @@ func newNodeWorld(seed int64) *nodeWorld {
 		w.keys = append(w.keys, &ethsecp256k1.PrivKey{Key: ks[:]})
 		accs = append(accs, &haqqtypes.EthAccount{BaseAccount: authtypes.NewBaseAccount(w.acc(i), nil, 0, 0), CodeHash: common.BytesToHash(crypto.Keccak256(nil)).Hex()})
 		bals = append(bals, banktypes.Balance{Address: w.acc(i).String(),
-			Coins: sdk.NewCoins(sdk.NewCoin(utils.BaseDenom, sdk.TokensFromConsensusPower(1_000_000, sdk.DefaultPowerReduction)))})
+			Coins: sdk.NewCoins(sdk.NewCoin(utils.BaseDenom, sdk.TokensFromConsensusPower(1_000_000, sdk.DefaultPowerReduction)), sdk.NewCoin(nodeSecondDenom, sdkmath.NewInt(1_000_000_000_000)))})
 	}
 	tmp := nodeNewApp(dbm.NewMemDB())
 	cdc := tmp.AppCodec()
@@ -218,6 +221,21 @@ func newNodeWorld(seed int64) *nodeWorld {
 		cdc.MustUnmarshalJSON(gs[coinomicstypes.ModuleName], &cg)
 		cg.MaxSupply = sdk.NewCoin(utils.BaseDenom, bankGen.Supply.AmountOf(utils.BaseDenom).Add(sdkmath.NewInt(1_200_000_000_000)))
 		gs[coinomicstypes.ModuleName] = cdc.MustMarshalJSON(&cg)
+	}
+	{
+		// epochs that do not share their boundaries and turn over within a history: "day" every 30 s from genesis, "week"
+		// every 50 s starting 17 s later (nothing in Haqq hooks into the identifiers)
+		var eg epochstypes.GenesisState
+		cdc.MustUnmarshalJSON(gs[epochstypes.ModuleName], &eg)
+		for i := range eg.Epochs {
+			switch eg.Epochs[i].Identifier {
+			case epochstypes.DayEpochID:
+				eg.Epochs[i].Duration, eg.Epochs[i].StartTime = 30*time.Second, w.genesisTime
+			case epochstypes.WeekEpochID:
+				eg.Epochs[i].Duration, eg.Epochs[i].StartTime = 50*time.Second, w.genesisTime.Add(17*time.Second)
+			}
+		}
+		gs[epochstypes.ModuleName] = cdc.MustMarshalJSON(&eg)
 	}
 	govGen := govv1.DefaultGenesisState()
 	vp := nodeVoting
@@ -491,10 +509,29 @@ func (w *nodeWorld) buildTxs(a *app.Haqq, ctx sdk.Context, tok string) [][]byte 
 		vst := sdkvesting.Periods{{Length: 1, Amount: c3(amt)}}
 		msg := vestingtypes.NewMsgConvertIntoVestingAccount(w.acc(ki(1)), w.acc(ki(2)), ctx.BlockTime().Add(-10*time.Second), lock, vst, true, false, nil)
 		return [][]byte{w.cosmosTx(a, ctx, ki(1), msg)}
+	case "vestc":
+		// funder k converts the address at which key d's next deployment will land into a vesting account; the deployment
+		// that follows puts a contract under that vesting account (the vesting module refuses to convert an existing
+		// contract, but nothing stops a contract from being created under a vesting account)
+		amt := mustBig(f[3])
+		c3 := func(x *big.Int) sdk.Coins {
+			return sdk.NewCoins(sdk.NewCoin(utils.BaseDenom, sdkmath.NewIntFromBigInt(x)))
+		}
+		target := crypto.CreateAddress(w.eth(ki(2)), a.EvmKeeper.GetNonce(ctx, w.eth(ki(2))))
+		lock := sdkvesting.Periods{{Length: 500000, Amount: c3(amt)}}
+		vst := sdkvesting.Periods{{Length: 1, Amount: c3(amt)}}
+		msg := vestingtypes.NewMsgConvertIntoVestingAccount(w.acc(ki(1)), sdk.AccAddress(target.Bytes()), ctx.BlockTime().Add(-10*time.Second), lock, vst, true, false, nil)
+		return [][]byte{w.cosmosTx(a, ctx, ki(1), msg)}
 	case "liq":
 		w.bigGas = true // liquidation deploys an ERC20 contract for the new denomination
 		defer func() { w.bigGas = false }()
 		return [][]byte{w.cosmosTx(a, ctx, ki(1), lvtypes.NewMsgLiquidate(w.acc(ki(1)), w.acc(ki(2)), coin(f[3])[0]))}
+	case "liqfail":
+		// a liquidation that fails half way: the recipient is a module account the bank refuses to pay (the new liquid
+		// denomination has been created by then); the transaction rolls back
+		w.bigGas = true
+		defer func() { w.bigGas = false }()
+		return [][]byte{w.cosmosTx(a, ctx, ki(1), lvtypes.NewMsgLiquidate(w.acc(ki(1)), authtypes.NewModuleAddress(authtypes.FeeCollectorName), coin(f[2])[0]))}
 	case "redeem":
 		denom := fmt.Sprintf("aLIQUID%d", vmIdx(f[3]))
 		return [][]byte{w.cosmosTx(a, ctx, ki(1), lvtypes.NewMsgRedeem(w.acc(ki(1)), w.acc(ki(2)), sdk.NewCoin(denom, sdkmath.NewIntFromBigInt(mustBig(f[4])))))}
@@ -625,6 +662,18 @@ func (w *nodeWorld) buildTxs(a *app.Haqq, ctx sdk.Context, tok string) [][]byte 
 		id := w.nextProp
 		w.nextProp++
 		return [][]byte{w.cosmosTx(a, ctx, 0, sub), nil, []byte(fmt.Sprintf("vote:%d", id))}
+	case "govveto2":
+		// a proposal deposited in two denominations and rejected with veto: the deposit is burned, which Haqq's bank keeper
+		// turns into a payment to the community pool — of both denominations
+		msg := banktypes.NewMsgSend(authtypes.NewModuleAddress(govtypes.ModuleName), w.acc(0), sdk.NewCoins(sdk.NewCoin(utils.BaseDenom, sdkmath.NewInt(1))))
+		dep := sdk.NewCoins(sdk.NewCoin(utils.BaseDenom, sdkmath.NewInt(1_000_000+int64(vmIdx(f[1])))), sdk.NewCoin(nodeSecondDenom, sdkmath.NewInt(777+int64(vmIdx(f[1])))))
+		sub, err := govv1.NewMsgSubmitProposal([]sdk.Msg{msg}, dep, w.acc(0).String(), "", "veto", "a proposal that gets vetoed")
+		if err != nil {
+			panic(err)
+		}
+		id := w.nextProp
+		w.nextProp++
+		return [][]byte{w.cosmosTx(a, ctx, 0, sub), nil, []byte(fmt.Sprintf("veto:%d", id))}
 	case "efcode":
 		// CREATE of a contract whose runtime code starts with 0xEF: refused from London on (EIP-3541), deployed before
 		return [][]byte{w.ethTx(a, ctx, ki(1), nil, nil, common.FromHex("0x60ef60005360016000f3"), 200_000, 0)}
@@ -659,10 +708,15 @@ func nodeGen(r *rand.Rand, tier string, prop string) []Case {
 	var out []Case
 	for i := 0; i < n; i++ {
 		wseed := r.Intn(1_000_000)
+		if i == 0 {
+			// the first world of every run has both special flavours whatever the seed: a few blocks from the coinomics cap
+			// (wseed % 5 == 0) and unprotected transactions allowed at genesis (wseed % 3 == 1)
+			wseed = wseed - wseed%15 + 10
+		}
 		c := Case{fmt.Sprintf("world # seed=%d", wseed)}
 		c = append(c, "blk # dt=6 txs=deploy.0|eth.1.5|bhdeploy.1")
 		c = append(c, "blk # dt=6 txs=fundpup.0.1000000000000000|approve.1|approve.2|mdeleg.3.100000000000000000|mdeleg.1.100000000000000000|mdeleg.2.100000000000000000")
-		c = append(c, "blk # dt=6 txs=vests.4.2.30000000000000000000|vest.4.5.9000000000000000000000|codeless.2|mdeleg2.1.300000000000000000|mdeleg2.3.200000000000000000")
+		c = append(c, "blk # dt=6 txs=vests.4.2.30000000000000000000|vest.4.5.9000000000000000000000|vestc.4.3.50000000000000000|bhdeploy.3|bhash.1.1|codeless.2|mdeleg2.1.300000000000000000|mdeleg2.3.200000000000000000")
 		if prop == "C19" && wseed%5 == 0 {
 			// the world that reaches the coinomics cap: exported after every one of the next blocks (one of them is the
 			// block in which minting switches itself off)
@@ -809,6 +863,9 @@ func nodeGen(r *rand.Rand, tier string, prop string) []Case {
 					txs = append(txs, "redeliver")
 				}
 			}
+			if b == swapAt+2 && (prop == "C15" || prop == "C01" || prop == "C19") {
+				txs = append(txs, fmt.Sprintf("govveto2.%d", r.Intn(1000)))
+			}
 			if b == swapAt+1 && prop == "C15" && i%2 == 0 {
 				// half of the C15 worlds: governance switches the ERC20 module off
 				txs = append(txs, "goverc20.0")
@@ -873,6 +930,12 @@ func nodeGen(r *rand.Rand, tier string, prop string) []Case {
 		// after the history: calls that touch both extensions of the swapped pair
 		c = append(c, "blk # dt=6 txs=pc.4.bech32|pc.5.p256|eth.2.7|efcode.3")
 		c = append(c, "blk # dt=6 txs=pc.1.p256|pc.2.bech32")
+		if i == 0 && (prop == "C01" || prop == "C20") {
+			// the first world of every run ends with a liquidation that fails half way, a restart mark, and a liquidation
+			// that succeeds: what the failed one did must be gone for the node that never stopped as for the one that
+			// starts from the stored state
+			c = append(c, "blk # dt=6 txs=liqfail.5.1000000000000000000000", "restart", "blk # dt=6 txs=liq.5.2.1200000000000000000000", "blk # dt=6 txs=send.1.2.5")
+		}
 		out = append(out, c)
 	}
 	if prop == "C01" {
@@ -896,6 +959,7 @@ type nodeRun struct {
 	results  []nodeBlockResult
 	restarts []nodeRestart
 	pendVote []uint64
+	pendVeto []uint64
 	// the active EVM extensions after the last block (to notice that the governance change really executed)
 	lastActive string
 }
@@ -1004,6 +1068,11 @@ func nodeExecHistory(c Case, afterBlock func(*nodeRun, int), atMark func(*nodeRu
 				tags = append(tags, "gov-vote")
 			}
 			run.pendVote = nil
+			for _, id := range run.pendVeto {
+				deliver(w.cosmosTx(a, ctx, 0, govv1.NewMsgVote(w.acc(0), id, govv1.VoteOption_VOTE_OPTION_NO_WITH_VETO, "")))
+				tags = append(tags, "gov-veto")
+			}
+			run.pendVeto = nil
 			var codes []string
 			if kv["txs"] != "" {
 				for _, tok := range strings.Split(kv["txs"], "|") {
@@ -1022,6 +1091,10 @@ func nodeExecHistory(c Case, afterBlock func(*nodeRun, int), atMark func(*nodeRu
 						}
 						if strings.HasPrefix(string(bz), "vote:") {
 							run.pendVote = append(run.pendVote, uint64(vmIdx(strings.TrimPrefix(string(bz), "vote:"))))
+							continue
+						}
+						if strings.HasPrefix(string(bz), "veto:") {
+							run.pendVeto = append(run.pendVeto, uint64(vmIdx(strings.TrimPrefix(string(bz), "veto:"))))
 							continue
 						}
 						r := deliver(bz)
